@@ -4,15 +4,17 @@ LEVEL = "other"
 SRC = "harness/C13/h_asmpars_sym.c"
 GROUPS = []
 def g(e, fns, **kw):
-    GROUPS.append(G("sym_" + e, SRC, "h_" + e, enforce=[], link=["asmdef.c", "tempresult.c", "nonzstring.c", "bpemu.c"], stubs=["stubs/gerr.c"],
-                    unwind=kw.pop("unwind", 8), timeout=600, dfcc=False, object_bits=12, defs=["-DSTRINGSIZE=64"], functions=fns, **kw))
+    GROUPS.append(G("sym_" + e, SRC, "h_" + e, enforce=[], link=["asmdef.c", "tempresult.c", "nonzstring.c", "bpemu.c"] + kw.pop("link_extra", []), stubs=["stubs/gerr.c"],
+                    unwind=kw.pop("unwind", 8), timeout=600, dfcc=False, object_bits=12, defs=["-DSTRINGSIZE=64"] + kw.pop("defs_extra", []), functions=fns, **kw))
 g("SymbolAdder", ["SymbolAdder", "FreeSymbolEntry"])
 g("FindNode", ["FindNode", "FindNode_FNode", "FindNode_FSpec", "GetSymSection", "ChkTmp3"], unwind=12,
   bounded="section nesting depth <= 2, fixed unqualified two-letter name (string helpers run concretely)")
 g("LookupSymbol", ["LookupSymbol", "FindNode", "FindLocNode"], unwind=12, bounded="fixed plain name, global scope (the section walk is sym_FindNode)")
+g("IdentifySection", ["IdentifySection", "GetSectionName"], unwind=14, replace_calls=["ExpandStrSymbol:verif_ExpandStrSymbol"], link_extra=["strutil.c"], defs_extra=["-DVERIF_LINK_STRUTIL"],
+  bounded="section nesting depth <= 5; qualifiers '', PARENT, PARENT0..9, S0..S4 (strings concrete up to one digit)")
 TRUSTED_BASE = ["message/file-name stubs", "FreeRelocs stub (no relocations)"]
 ASSUMPTIONS = ["integer or float values (string constants compared by as_nonz_dynstr_cmp are not explored)", "JmpErrors <= ErrorCount (established by WrXErrorPos, see C02)"]
-NOT_COVERED = ["balanced tree (trees.c)", "IdentifySection / qualifier parsing", "CodeSECTION/PUBLIC/GLOBAL/FORWARD list construction"]
+NOT_COVERED = ["balanced tree (trees.c)", "GetSymSection qualifier splitting ([..] parsing)", "CodeSECTION/PUBLIC/GLOBAL/FORWARD list construction"]
 EXPLANATION = ("Kernel only: SymbolAdder decides constant vs variable vs redefinition and when another pass is requested; the section walk and "
                "temporary-symbol counters follow; the run-level statement (every reference resolves as the manual prescribes) is an induction "
                "over these per-call facts and the unverified tree/section code.")
